@@ -46,6 +46,7 @@ class K:
             return v
 
 def outer():
+    u = 3
     v = 7
     def nested(x):
         v = x * 10
@@ -62,6 +63,13 @@ def deco(fn):
 def decorated(x):
     v = x + 100
     return v
+
+def helper(x):
+    v = x + 5
+    return v
+
+def driver(x):
+    return helper(x)
 
 nested = outer()
 '''
@@ -87,10 +95,14 @@ class Universe:
             ("decorated", M.decorated, M.decorated.__wrapped__, lambda x: M.decorated(x), lambda x: x + 100),
             # the function that DEFINES another one (whose live instance keeps its own reference)
             ("outer", M.outer, M.outer, lambda x: (M.outer(), None)[1], lambda x: 7),
+            ("helper", M.helper, M.helper, lambda x: M.helper(x), lambda x: x + 5),
+            # a function that is only an element of a call path: instrumented with NO captured variable
+            ("driver", M.driver, M.driver, lambda x: M.driver(x), lambda x: x + 5),
         ]
         self.by_name = {"m": "m > v", "other": "other > v", "K.m": "K.m > v", "K.other": "K.other > v",
                         "K.Inner.deep": "K.Inner.deep > v", "K.Inner.m": "K.Inner.m > v",
-                        "nested": "nested > v", "decorated": "decorated > v", "outer": "outer > v"}
+                        "nested": "nested > v", "decorated": "decorated > v", "outer": "outer > v",
+                        "helper": "helper > v", "driver": "driver > helper > v"}
 
     def drop(self):
         sys.modules.pop(self.name, None)
@@ -121,7 +133,7 @@ def resolve_all(uni):
     return out
 
 
-def run_history(chk, uni, drv, rng, stats):
+def run_history(chk, uni, drv, rng, stats, script=None):
     import ptera
     from ptera import refstring
     n = len(uni.fns)
@@ -139,44 +151,55 @@ def run_history(chk, uni, drv, rng, stats):
         return caps, len(st.tset.transforms)
 
     try:
-        for _ in range(rng.randrange(4, 12)):
-            r = rng.random()
+        for step_i in range(rng.randrange(4, 12) if script is None else len(script)):
+            forced = None if script is None else script[step_i]
+            r = rng.random() if forced is None else {"activate": 0.0, "deactivate": 0.5, "call": 0.7, "resolve": 0.9}[forced[0]]
             before = {fi: stack_state(fi) for fi in range(n)}
             if r < 0.35:
                 fi = rng.randrange(n)
                 by = rng.choice(["name", "ref"])
                 label, fn, target, _, _ = uni.fns[fi]
-                extra = rng.choice(["", "", "x"]) if label != "outer" else ""
+                # a second captured variable: different probes on one function need different variants
+                extra = rng.choice(["", "", "x"]) if label != "outer" else rng.choice(["", "u"])
+                if forced is not None:
+                    fi = [f[0] for f in uni.fns].index(forced[1])
+                    by, extra = forced[2], forced[3]
+                    label, fn, target, _, _ = uni.fns[fi]
                 if by == "name":
-                    sel = uni.by_name[label] if not extra else uni.by_name[label].replace(" > v", "(x) > v")
+                    sel = uni.by_name[label] if not extra else uni.by_name[label].replace(" > v", "(%s) > v" % extra)
+                elif label == "driver":
+                    ref = refstring(fn) + " > " + refstring(uni.mod.helper)
+                    sel = ref + " > v" if not extra else ref + "(x) > v"
                 else:
                     ref = refstring(fn)
-                    sel = ref + " > v" if not extra else ref + "(x) > v"
+                    sel = ref + " > v" if not extra else ref + "(%s) > v" % extra
                 op = {"op": "activate", "f": fi, "by": by, "sel": sel}
                 try:
                     p = ptera.Probe(sel, env=uni.mod.__dict__)
                     acc = p.accum()
                     p.__enter__()
-                    probes.append([p, fi, acc, by, bool(extra)])
+                    probes.append([p, fi, acc, by, extra])
                 except Exception as e:
                     chk.violation("oracle", "activating %r raised %s: %s" % (sel, type(e).__name__, str(e)[:120]),
                                   {"history": hist + [op]})
                     hist.append(op)
                     break
             elif r < 0.55 and probes:
-                k = rng.randrange(len(probes))          # any order
+                k = rng.randrange(len(probes)) if forced is None else forced[1] % len(probes)          # any order
                 p, fi, acc, by, extra = probes.pop(k)
                 p.__exit__(None, None, None)
                 op = {"op": "deactivate", "f": fi}
             elif r < 0.8:
-                fi = rng.randrange(n)
+                fi = rng.randrange(n) if forced is None else [f[0] for f in uni.fns].index(forced[1])
                 x = rng.randrange(0, 9)
                 ret = uni.fns[fi][3](x)
                 op = {"op": "call", "f": fi, "x": x}
                 want_v = uni.fns[fi][4](x)
                 for p, pfi, acc, by, extra in probes:
                     if pfi == fi:
-                        want = {"v": want_v, "x": x} if extra else {"v": want_v}
+                        want = {"v": want_v}
+                        if extra:
+                            want[extra] = x if extra == "x" else 3
                         if not acc or acc[-1] != want:
                             chk.violation("oracle", "probe by %s on %s did not deliver %r for this call (stream: %r)" % (
                                 by, uni.fns[fi][0], want, list(acc)[-3:]), {"history": hist + [op]})
@@ -260,6 +283,26 @@ def run(chk):
             uni = Universe(tmp, u)
             for _ in range(per):
                 run_history(chk, uni, drv, chk.rng, stats)
+            uni.drop()
+        # directed: every order of three probes among those on a function and on the function defined inside
+        # it / called by it, each on a FRESH module (variants are compiled while neighbours are off their
+        # original code; a variant compiled earlier would be reused)
+        import itertools
+        fam = [("nested", "", ), ("outer", ""), ("outer", "u"), ("helper", ""), ("driver", ""), ("driver", "x")]
+        trios = list(itertools.permutations(fam, 3))
+        if chk.tier == "quick":
+            # the encloser's two variants with the inner function, the path-only function with its callee, + a sample
+            core_t = [t for t in trios if {x[0] for x in t} in ({"nested", "outer"}, {"helper", "driver"})]
+            trios = core_t + chk.rng.sample([t for t in trios if t not in core_t], 8)
+        for k, trio in enumerate(trios):
+            uni = Universe(tmp, 1000 + k)
+            by = chk.rng.choice(["name", "ref"])
+            sc = []
+            for lab, ex in trio:
+                sc += [("activate", lab, by, ex), ("call", lab)]
+            sc += [("deactivate", 1), ("resolve",), ("deactivate", 0), ("call", trio[2][0]), ("deactivate", 0)]
+            run_history(chk, uni, drv, chk.rng, stats, script=sc)
+            chk.dist("directed")
             uni.drop()
         witness_tooled(chk)
     finally:
